@@ -77,6 +77,18 @@ KINDS = {
     "hsla_premium_edge": lambda: Item("hsla_premium_edge", [("color", "hsla(210, 100%, 20%, 0.8)", False)]),
     "hsla_on_light": lambda: Item("hsla_on_light", [("color", "hsla(210, 100%, 35%, 0.85)", False), ("background-color", "#f0f0f0", False)]),
     "rgba_premium_edge": lambda: Item("rgba_premium_edge", [("color", "rgba(0, 51, 102, 0.8)", False)]),
+    # var() as a part of a larger value: the reference is a token substitution, not "the value is the property"
+    "var_inside_rgba": lambda: Item("var_inside_rgba", [("color", "rgba(var(--ink), 0.3)", False)], extra_blocks=(":root {\n  --ink: 0, 0, 0;\n}\n",)),
+    "var_inside_rgb": lambda: Item("var_inside_rgb", [("color", "rgb(var(--ink2))", False)], extra_blocks=(":root {\n  --ink2: 119, 119, 119;\n}\n",)),
+    "var_in_color_mix": lambda: Item("var_in_color_mix", [("color", "color-mix(in srgb, var(--t) 20%, white)", False)], needs=("--t",)),
+    # colour functions the tool does not know: their numbers are not rgb components
+    "fn_oklch": lambda: Item("fn_oklch", [("color", "oklch(0.9 0.05 200)", False)]),
+    "fn_lab": lambda: Item("fn_lab", [("color", "lab(90% 0 0)", False)]),
+    "fn_color_srgb": lambda: Item("fn_color_srgb", [("color", "color(srgb 0.9 0.9 0.9)", False)]),
+    "fn_hwb": lambda: Item("fn_hwb", [("color", "hwb(0 80% 0%)", False), ("background-color", "#fff", False)]),
+    # a custom property shared with other rules in another role: as a background, and by a rule that cannot be fixed
+    "bg_uses_h": lambda: Item("bg_uses_h", [("color", "#222", False), ("background-color", "var(--h)", False)], needs=("--h",)),
+    "var_t_unfixable_bg": lambda: Item("var_t_unfixable_bg", [("color", "var(--t)", False), ("background-color", "#777", False)], needs=("--t",)),
     # CSS Color 4 alias forms: hsl() / rgb() carrying an alpha
     "hsl_with_alpha": lambda: Item("hsl_with_alpha", [("color", "hsl(0, 0%, 0%, 0.3)", False)]),
     "hsl_slash_alpha": lambda: Item("hsl_slash_alpha", [("color", "hsl(0 0% 40% / 0.1)", False), ("background-color", "#fff", False)]),
@@ -121,6 +133,23 @@ KINDS = {
     "bg_only": lambda: Item("bg_only", [("background-color", "#000", False)]),
 }
 ORDER = list(KINDS)
+CORE = ["lit_fail", "lit_own_bg", "readable", "unfixable", "var_t", "var_t_other_bg", "var_html", "root_literal", "important", "star_hack"]
+
+
+def interacts(kind):
+    """Items that can influence another rule of the sheet (custom properties, fixed or shared selectors, extra blocks, a
+    declaration the serializer chokes on): the quick tier pairs these with each other and everything with CORE."""
+    it = KINDS[kind]()
+    shared_sel = bool(it.selector_fmt) and "{i}" not in it.selector_fmt and "%" not in it.selector_fmt
+    junk = any(isinstance(d, str) and not d.startswith("/*") for d in it.decls)
+    return bool(it.needs or it.extra_blocks or it.selector or shared_sel or junk)
+
+
+def quick_pairs(kinds):
+    """Ordered pairs explored by the quick tiers: both items interacting, or one of them in CORE (the thorough tiers take all)."""
+    inter = {k for k in kinds if k in KINDS and interacts(k)}
+    core = set(CORE)
+    return [(a, b) for a in kinds for b in kinds if (a in inter and b in inter) or a in core or b in core]
 
 
 def render_item(item, idx, wrapper="none", indent=""):
